@@ -27,8 +27,8 @@ Non-trivial = |J| >= 1; distinct by hash of the message octets.",
 
 fn parts(t: Tier) -> Vec<Part> {
     let a = match t {
-        Tier::Quick => 300_000,
-        Tier::Thorough => 5_000_000,
+        Tier::Quick => 900_000,
+        Tier::Thorough => 10_000_000,
     };
     vec![tape("faults", a, 1500)]
 }
